@@ -67,13 +67,36 @@ fn forward_ok(t: i32, prices: &[u128]) -> Result<(), String> {
     Ok(())
 }
 
+/// Candidate witnesses when the estimate is not monotone between a < b (est(a) not <= est(b)): both points and the adjacent pair
+/// where the estimate drops, found by bisection keeping the invariant "est(l) not <= est(r)".
+fn drop_points(a: u128, b: u128, evals: &mut u64) -> Vec<u128> {
+    let le = |x: (i32, i32), y: (i32, i32)| x.0 <= y.0 && x.1 <= y.1;
+    let (mut l, mut r) = (a, b);
+    let mut out = vec![a, b];
+    while r - l > 1 {
+        let m = l + (r - l) / 2;
+        let (el, em, er) = (est(l).1, est(m).1, est(r).1);
+        *evals += 3;
+        if !le(el, em) {
+            r = m;
+        } else if !le(em, er) {
+            l = m;
+        } else {
+            break;
+        }
+    }
+    out.push(l);
+    out.push(r);
+    out
+}
+
 /// Find all points x in (a, b] where the estimate at x differs from the estimate at x-1. Requires monotonicity.
-fn split(a: u128, ea: (i32, i32), b: u128, eb: (i32, i32), out: &mut Vec<u128>, evals: &mut u64) -> Result<(), String> {
+fn split(a: u128, ea: (i32, i32), b: u128, eb: (i32, i32), out: &mut Vec<u128>, evals: &mut u64) -> Result<(), (u128, u128, String)> {
     if ea == eb {
         return Ok(());
     }
     if !(ea.0 <= eb.0 && ea.1 <= eb.1) {
-        return Err(format!("estimate not monotone: est({a}) = {ea:?} > est({b}) = {eb:?}"));
+        return Err((a, b, format!("estimate not monotone: est({a}) = {ea:?} > est({b}) = {eb:?}")));
     }
     if b == a + 1 {
         out.push(b);
@@ -134,6 +157,7 @@ pub fn run(ctx: &Ctx) -> Report {
         // ---- the full interval partition ----
         let ev = AtomicU64::new(0);
         let iv = AtomicU64::new(0);
+        let machinery: std::sync::Mutex<Vec<String>> = std::sync::Mutex::new(vec![]);
         let bad: Vec<(u128, String)> = (MIN_TICK..MAX_TICK)
             .into_par_iter()
             .flat_map_iter(|t| {
@@ -144,14 +168,37 @@ pub fn run(ctx: &Ctx) -> Report {
                 let (_, elo) = est(lo);
                 let (_, ehi) = est(hi);
                 let mut cuts = vec![];
-                if let Err(e) = split(lo, elo, hi, ehi, &mut cuts, &mut evals) {
-                    bad.push((lo, e));
+                let mut partition_ok = true;
+                if let Err((na, nb, e)) = split(lo, elo, hi, ehi, &mut cuts, &mut evals) {
+                    partition_ok = false;
+                    // The equivalence-class argument needs a monotone estimate. Where it is not, look for a concrete price with a
+                    // wrong answer (the ends of the offending stretch and the point where the estimate drops) and report that —
+                    // a replayable input; only if every one of them converts correctly is the failed argument itself reported.
+                    let mut witness = None;
+                    for q in drop_points(na, nb, &mut evals).into_iter().chain([lo, hi]) {
+                        match inverse_ok(q, &prices) {
+                            Err(e2) => {
+                                witness = Some((q, format!("{e2} (found where the (tick_low, tick_high) estimate is not monotone: {e})")));
+                                break;
+                            }
+                            Ok(res) if res != t => {
+                                witness = Some((q, format!("tick({q}) = {res}, expected {t} (found where the estimate is not monotone: {e})")));
+                                break;
+                            }
+                            _ => {}
+                        }
+                    }
+                    match witness {
+                        Some(w) => bad.push(w),
+                        None => machinery.lock().unwrap().push(format!("tick {t}: {e}, but no concrete price in the stretch converts wrongly")),
+                    }
+                    cuts.clear();
                 }
                 // pieces: [lo, c1-1], [c1, c2-1], ..., [ck, hi]; on each piece the estimate is constant and no tick
                 // price lies strictly inside (lo is a tick price, the next one is hi+1), so the result is constant.
                 let mut start = lo;
                 let mut n_iv = 0u64;
-                for end in cuts.iter().map(|c| c - 1).chain(std::iter::once(hi)) {
+                for end in cuts.iter().map(|c| c - 1).chain(std::iter::once(hi)).filter(|_| partition_ok) {
                     n_iv += 1;
                     let (ea, eb) = (est(start).1, est(end).1);
                     evals += 4;
@@ -191,6 +238,12 @@ pub fn run(ctx: &Ctx) -> Report {
             .collect();
         evaluations += ev.load(Ordering::Relaxed);
         intervals = iv.load(Ordering::Relaxed);
+        let mach = machinery.into_inner().unwrap();
+        if bad.is_empty() && !mach.is_empty() {
+            // no wrong answer found, but the partition argument does not hold: the check cannot decide (exit 2, never a verdict)
+            eprintln!("MACHINERY ERROR: C09 interval partition not applicable: {}", mach[0]);
+            std::process::exit(2);
+        }
         exhaustive_inverse = bad.is_empty();
         for (q, e) in bad.iter().take(2) {
             r.violation(format!("inverse:{q}"), e.clone(), json!({"kind":"inverse","price":q.to_string()}));
